@@ -7,7 +7,10 @@ package quickfix
 
 import (
 	"bytes"
+	"strconv"
 	"time"
+
+	"github.com/quickfixgo/quickfix/config"
 )
 
 // VerifClock is an acceptor session FIX.4.2 sender->target running session.run() in its own goroutine.
@@ -21,6 +24,23 @@ type VerifClock struct {
 func NewVerifClock(sender, target string, app Application) (*VerifClock, error) {
 	sid := SessionID{BeginString: "FIX.4.2", SenderCompID: sender, TargetCompID: target}
 	s, err := sessionFactory{}.newSession(sid, NewMemoryStoreFactory(), NewSessionSettings(), nullLogFactory{}, app)
+	if err != nil {
+		return nil, err
+	}
+	v := &VerifClock{s: s, done: make(chan struct{})}
+	go func() { s.run(); close(v.done) }()
+	return v, nil
+}
+
+// NewVerifClockInitiator creates an initiator session (HeartBtInt hbSec seconds) the way the initiator does and starts its
+// run loop; Connect then makes it send its Logon.
+func NewVerifClockInitiator(sender, target string, hbSec int, app Application) (*VerifClock, error) {
+	sid := SessionID{BeginString: "FIX.4.2", SenderCompID: sender, TargetCompID: target}
+	settings := NewSessionSettings()
+	settings.Set(config.HeartBtInt, strconv.Itoa(hbSec))
+	settings.Set(config.SocketConnectHost, "127.0.0.1")
+	settings.Set(config.SocketConnectPort, "1")
+	s, err := sessionFactory{BuildInitiators: true}.newSession(sid, NewMemoryStoreFactory(), settings, nullLogFactory{}, app)
 	if err != nil {
 		return nil, err
 	}
